@@ -214,6 +214,10 @@ class PatchLinkage:
         patch_ids = list(ref_cat.keys())
         centers = ref_cat.get_centers()
         radii = ref_cat.get_radii()
+        # patches of the other catalogs may extend beyond the reference radius
+        for cat in other_cats:
+            extent = cat.get_radii() + centers.distance(cat.get_centers())
+            radii = AngularDistances(np.maximum(radii.data, extent.data))
 
         patch_links = dict()
         for patch_id, patch_center, patch_radius in zip(patch_ids, centers, radii):
